@@ -12,6 +12,7 @@ import IpcHub.Lemmas.H264Sps
 import IpcHub.Lemmas.H264Dims
 import IpcHub.Lemmas.Asc
 import IpcHub.Lemmas.HevcDecode
+import IpcHub.Lemmas.HevcVps
 import IpcHub.Model.CodecInst
 namespace IpcHub.Props.C15
 open IpcHub.Bits IpcHub.BitSyntax IpcHub.Epb IpcHub.H264 IpcHub.H264Syntax IpcHub.AscSyntax
@@ -186,18 +187,15 @@ theorem c15_hevc_sps_head (s : IpcHub.HevcSyntax.SpsSyn) (wf : IpcHub.Hevc.HeadW
   obtain ⟨q, hq⟩ := IpcHub.Hevc.spsHead_enc _ c15_hevc_source_facts.1 s wf rest
   exact ⟨_, hq, rfl, rfl, rfl, rfl, IpcHub.Hevc.width_headOf s q, IpcHub.Hevc.height_headOf s q⟩
 
-/-- Stage 2, **partial**.  Full statement: for every H.265 SPS syntax tree in range, `H265RawSPS.Decode` on the
-    NAL unit of the specification's encoder succeeds, agrees with the tree, and `hevc.MetadataIsReady` stores the
-    standard's width, height, picture rate and the fixed-rate flag.
-    Proved here for every tree whose short-term reference picture sets are explicitly coded (`BodyWF.rps`):
-    profile_tier_level with sub-layers, sub-layer ordering info (both flag values), scaling list data, PCM,
-    long-term pictures, VUI with default display window, timing, HRD with sub-picture parameters and sub-layers,
-    extension flags, trailing bits and emulation prevention are all covered.
-    Excluded: trees containing a set with inter_ref_pic_set_prediction_flag = 1 — the model implements the
-    derivation 7.4.8 and the correspondence run compares it with the implementation and with the specification's
-    NumDeltaPocs on every generated tree, but the equivalence of the stored delta-step form with the
-    standard's delta arrays is not yet proved. -/
-theorem c15_hevc_sps_partial (s : IpcHub.HevcSyntax.SpsSyn) (hw : IpcHub.Hevc.HeadWF s) (bw : IpcHub.Hevc.BodyWF s)
+/-- Stage 2 (full strength): for every H.265 SPS syntax tree in range, `H265RawSPS.Decode` on the NAL unit of the
+    specification's encoder succeeds and agrees with the tree, and `hevc.MetadataIsReady` stores the standard's
+    width, height, picture rate and the fixed-rate flag.  Covered: profile_tier_level with sub-layers, sub-layer
+    ordering info (both flag values), scaling list data, PCM, short-term reference picture sets — explicitly
+    coded **and** predicted (inter_ref_pic_set_prediction_flag = 1; the stored delta-step form is proved to represent
+    the delta arrays of 7.4.8, so NumDeltaPocs is the standard's for every following set) —, long-term pictures,
+    VUI with default display window, timing, HRD with sub-picture parameters and sub-layers, extension flags,
+    trailing bits and emulation prevention. -/
+theorem c15_hevc_sps (s : IpcHub.HevcSyntax.SpsSyn) (hw : IpcHub.Hevc.HeadWF s) (bw : IpcHub.Hevc.BodyWF s)
     (htid : 1 ≤ s.nuh_temporal_id_plus1) (vps pps : List UInt8) (hv : vps ≠ []) (hp : pps ≠ []) :
     (∃ raw, IpcHub.Hevc.decodeSps IpcHub.Hevc.genCfg (IpcHub.HevcSyntax.encSpsNal s) = .ok raw ∧ IpcHub.Hevc.Agrees raw s) ∧
     IpcHub.Hevc.metadataIsReady IpcHub.Hevc.genCfg vps (IpcHub.HevcSyntax.encSpsNal s) pps =
@@ -211,6 +209,18 @@ theorem c15_hevc_sps_partial (s : IpcHub.HevcSyntax.SpsSyn) (hw : IpcHub.Hevc.He
     obtain ⟨b0, b1, hpk, _, _⟩ := IpcHub.Hevc.pack_nalHeader 33 s.nuh_layer_id s.nuh_temporal_id_plus1 (Or.inr rfl) ⟨htid, hw.tid⟩
     simp [IpcHub.HevcSyntax.encSpsNal, hpk]
   simp [IpcHub.Hevc.metadataIsReady, h1, h2, h3, hd, IpcHub.Hevc.dims_of_agrees raw s ha]
+
+/-- H.265 VPS, **partial**.  Full statement: for every VPS syntax tree in range `H265RawVPS.Decode` on the NAL unit of
+    the specification's encoder succeeds and agrees with the tree.  Proved for every tree whose hrd_parameters()
+    entries all carry the common information (cprms_present_flag = 1, `VpsWF.hrds`): NAL header, ids and flags,
+    profile_tier_level with sub-layers (consumed exactly; its individual flags are not part of the claim),
+    sub-layer ordering info for both flag values, layer sets, timing, HRD list, extension flag, trailing bits and
+    emulation prevention; the decoded structure equals `vpsOf v q` field by field.
+    Excluded: entries with cprms_present_flag = 0, for which the standard infers the common information from the
+    previous entry while the code starts from a zero structure (the values are not reported for the stream). -/
+theorem c15_hevc_vps_partial (v : IpcHub.HevcSyntax.VpsSyn) (wf : IpcHub.Hevc.VpsWF v) :
+    ∃ q, IpcHub.Hevc.decodeVps IpcHub.Hevc.genCfg (IpcHub.HevcSyntax.encVpsNal v) = .ok (IpcHub.Hevc.vpsOf v q) :=
+  IpcHub.Hevc.decodeVps_enc _ c15_hevc_source_facts.1 v wf
 
 /-- The pinned tree as models with the old facts: (a) with the sub-layer ordering loop inverted, a valid SPS with
     two temporal sub-layers and ordering info for both is misparsed — 30000/1001 fps becomes "no timing"; (b) with
@@ -261,13 +271,14 @@ example : AscWF { aot := 2, samplingFrequencyIndex := 6, channelConfiguration :=
                   signalling := .backward true 15 48000 (some true) } := by
   refine { aot := ?_, idx := ?_, freq := ?_, cc := ?_, sig := ?_ } <;> decide
 
-/-- an H.265 SPS with two sub-layers, conformance window, PCM, two explicit reference picture sets, long-term
+/-- an H.265 SPS with two sub-layers, conformance window, PCM, an explicit, a predicted and another explicit reference picture set, long-term
     pictures, VUI with timing and HRD meets `HeadWF` and `BodyWF` -/
 example : let s : IpcHub.HevcSyntax.SpsSyn :=
       { ptl := { sub_layers := [{ profile_present_flag := true, level_present_flag := true }] },
         pic_width_in_luma_samples := 1920, pic_height_in_luma_samples := 1088, conformance_window_flag := true,
         conf_win_bottom_offset := 4, ordering := [(2, 0, 0), (4, 2, 5)], pcm_enabled_flag := true,
-        st_ref_pic_sets := [.explicit [(0, true), (1, false)] [(0, true)], .explicit [(3, true)] []],
+        st_ref_pic_sets := [.explicit [(0, true), (1, true)] [(0, true)],
+                            .inter true 0 [(true, true), (false, false), (true, true), (false, true)], .explicit [(3, true)] []],
         long_term_ref_pics_present_flag := true, long_term := [(5, true)],
         vui_parameters_present_flag := true,
         vui := { vui_timing_info_present_flag := true, vui_num_units_in_tick := 1001, vui_time_scale := 60000,
@@ -282,15 +293,37 @@ example : let s : IpcHub.HevcSyntax.SpsSyn :=
              minCb := by decide, diffCb := by decide, minTb := by decide, diffTb := by decide, thInter := by decide,
              thIntra := by decide, alignW := by decide, alignH := by decide, sl := fun h => absurd h (by decide),
              pcm1 := by decide, pcm2 := by decide, pcm3 := by decide, pcm4 := by decide, nrps := by decide,
-             rps := ⟨⟨by decide, by decide⟩, ⟨by decide, by decide⟩, ⟨by decide, by decide⟩, ⟨by decide, by decide⟩, trivial⟩,
-             lt := fun _ => ⟨by decide, by decide⟩, vui := fun _ => ?_, e5 := by decide }
-    refine { ar := by decide, sw := by decide, sh := by decide, vf := by decide, cp := by decide, tc := by decide,
-             mc := by decide, clt := by decide, clb := by decide, dl := by decide, dr := by decide, dt := by decide,
-             db := by decide, nut := by decide, ts := by decide, nt := by decide, hrd := fun _ _ => ?_, mss := by decide,
-             r1 := by decide, r2 := by decide, r3 := by decide, r4 := by decide }
-    refine { td := by decide, du := by decide, dd := by decide, brs := by decide, css := by decide, cds := by decide,
-             i1 := by decide, i2 := by decide, i3 := by decide, len := by decide, subs := ?_ }
-    exact ⟨⟨by decide, by decide, fun _ => ⟨by decide, by decide⟩, fun h => absurd h (by decide)⟩,
-           ⟨by decide, by decide, fun _ => ⟨by decide, by decide⟩, fun h => absurd h (by decide)⟩, trivial⟩
+             rps := ?rps,
+             lt := fun _ => ⟨by decide, by decide⟩, vui := fun _ => ?vui, e5 := by decide }
+    case vui =>
+      refine { ar := by decide, sw := by decide, sh := by decide, vf := by decide, cp := by decide, tc := by decide,
+               mc := by decide, clt := by decide, clb := by decide, dl := by decide, dr := by decide, dt := by decide,
+               db := by decide, nut := by decide, ts := by decide, nt := by decide, hrd := fun _ _ => ?_, mss := by decide,
+               r1 := by decide, r2 := by decide, r3 := by decide, r4 := by decide }
+      refine { td := by decide, du := by decide, dd := by decide, brs := by decide, css := by decide, cds := by decide,
+               i1 := by decide, i2 := by decide, i3 := by decide, len := by decide, subs := ?_ }
+      exact ⟨⟨by decide, by decide, fun _ => ⟨by decide, by decide⟩, fun h => absurd h (by decide)⟩,
+             ⟨by decide, by decide, fun _ => ⟨by decide, by decide⟩, fun h => absurd h (by decide)⟩, trivial⟩
+    case rps =>
+      have g : ∀ a : IpcHub.HevcSyntax.RpsArrays, IpcHub.Hevc.Good a ↔
+          (IpcHub.Hevc.Desc 0 (a.s0.map (·.1)) ∧ IpcHub.Hevc.Asc 0 (a.s1.map (·.1)) ∧ a.s0.length + a.s1.length ≤ 15) := fun _ => Iff.rfl
+      refine ⟨fun _ => ⟨_, _, rfl⟩, ⟨by decide, by decide, ?_⟩, fun h => absurd h (by decide),
+        ⟨by decide, by decide, by decide, by decide, ?_⟩, fun h => absurd h (by decide), ⟨by decide, by decide, ?_⟩, trivial⟩ <;>
+        (rw [g]; simp [IpcHub.HevcSyntax.arraysOf, IpcHub.HevcSyntax.sumsOf, IpcHub.HevcSyntax.pick,
+          IpcHub.HevcSyntax.candidatesS0, IpcHub.HevcSyntax.candidatesS1, IpcHub.HevcSyntax.RpsArrays.numDeltaPocs,
+          IpcHub.Hevc.Desc, IpcHub.Hevc.Asc, List.zipIdx])
+
+/-- a VPS with two sub-layers, one layer set, timing and one HRD meets `VpsWF` -/
+example : IpcHub.Hevc.VpsWF
+    { ptl := { sub_layers := [{}] }, ordering := [(1, 0, 0), (3, 1, 0)], vps_max_layer_id := 1, layer_sets := [[true, false]],
+      vps_timing_info_present_flag := true, vps_num_units_in_tick := 1, vps_time_scale := 25,
+      hrds := [(0, true, { sub_layers := [{}, {}] })] } := by
+  refine { layer := by decide, tid := by decide, vid := by decide, ml := by decide, msl := by decide, nest := fun h => absurd h (by decide),
+           ordLen := by decide, ord := by decide, mli := by decide, nls := by decide, rows := ⟨by decide, trivial⟩,
+           nut := by decide, ts := by decide, nt := by decide, nhrd := by decide, hrds := ⟨by decide, fun h => absurd h (by decide), ?_, trivial⟩ }
+  refine { td := by decide, du := by decide, dd := by decide, brs := by decide, css := by decide, cds := by decide,
+           i1 := by decide, i2 := by decide, i3 := by decide, len := by decide, subs := ?_ }
+  exact ⟨⟨by decide, by decide, fun h => absurd h (by decide), fun h => absurd h (by decide)⟩,
+         ⟨by decide, by decide, fun h => absurd h (by decide), fun h => absurd h (by decide)⟩, trivial⟩
 
 end IpcHub.Props.C15
